@@ -327,8 +327,8 @@ def judge(name, src, cls, base, results):
             continue
         if o["mode"] != "path":
             # is it the inline mode or one of the other options?  name the culprit in the kind
-            problems.append(("inline-differs-from-file" if ("\r" in src or (all(o[k] == BASE[k] for k in ("colors", "fmt", "o", "debug"))
-                                                                           and not o["R"]))
+            problems.append(("inline-differs-from-file" if (cls.startswith("routes:") or "\r" in src
+                                                            or (all(o[k] == BASE[k] for k in ("colors", "fmt", "o", "debug")) and not o["R"]))
                              else "diagnostics-depend-on-options", dict(data, cr_in_content="\r" in src), None))
             continue
         problems.append(("diagnostics-depend-on-options", data, None))
@@ -495,7 +495,108 @@ def make_files(rnd, tier, deep=False):
         files.append(("cr_" + name, "\n".join(lines[:k]) + "\r" + "\n".join(lines[k:]), "one-cr"))
         files.append(("uni_" + name, "\n".join(lines[:11]) + "\n/* caf\u00e9 \u4e2d\u6587 \u00df */\n" + "\n".join(lines[11:]), "non-ascii"))
         files.append(("unis_" + name, src.replace("return (0);", "return (\"\u00e9\"[0]);", 1), "non-ascii"))
+    files += route_files()
     return files
+
+
+BODY_C = "\nint\tmain(void)\n{\n\treturn (0);\n}\n"
+BODY_BAD_C = "\nint\tmain()\n{\n\treturn 0;\n}\n"
+BODY_H = "\n#ifndef RT_H\n# define RT_H\n\nint\tft_x(void);\n\n#endif\n"
+BOM = "\ufeff"
+
+
+def route_files():
+    """Contents on which the two input routes (a file read by File.source / a string taken from argv) could treat the text
+    differently: byte order mark, leading / trailing blank material, missing final newline, whitespace only, line-end
+    conventions, form feed and other control characters, non-ASCII.  Each as a .c and as a .h content."""
+    H = impl.HDR
+    out = []
+
+    def both(label, mk):
+        out.append(("rt.c", mk(H, BODY_C), "routes:" + label))
+        out.append(("rt.h", mk(H, BODY_H), "routes:" + label))
+    both("bom-then-header", lambda h, b: BOM + h + b)
+    both("bom-then-header-violating", lambda h, b: BOM + h + b.replace("(void)", "()"))
+    both("bom-no-header", lambda h, b: BOM + b.lstrip("\n"))
+    both("bom-only", lambda h, b: BOM)
+    both("bom-newline", lambda h, b: BOM + "\n")
+    both("bom-twice", lambda h, b: BOM + BOM + h + b)
+    both("bom-in-comment", lambda h, b: h + "\n// a " + BOM + " inside\n" + b.lstrip("\n"))
+    both("bom-in-code", lambda h, b: h + b.replace("\tmain", "\t" + BOM + "main").replace("\tft_x", "\t" + BOM + "ft_x"))
+    both("bom-at-end", lambda h, b: h + b + BOM)
+    both("bom-after-crlf", lambda h, b: "\r\n" + BOM + h + b)
+    both("leading-empty-line", lambda h, b: "\n" + h + b)
+    both("leading-empty-lines", lambda h, b: "\n\n\n" + h + b)
+    both("leading-space", lambda h, b: " " + h + b)
+    both("leading-tab", lambda h, b: "\t" + h + b)
+    both("leading-blank-line-with-spaces", lambda h, b: "  \t\n" + h + b)
+    both("trailing-empty-lines", lambda h, b: h + b + "\n\n\n")
+    both("trailing-spaces", lambda h, b: h + b + "   ")
+    both("trailing-tab-line", lambda h, b: h + b + "\t\n")
+    both("no-final-newline", lambda h, b: (h + b)[:-1])
+    both("no-final-newline-violating", lambda h, b: (h + b.replace("(void)", "()"))[:-1])
+    both("header-only-no-newline", lambda h, b: h[:-1])
+    both("only-space", lambda h, b: " ")
+    both("only-newline", lambda h, b: "\n")
+    both("only-newlines", lambda h, b: "\n\n\n")
+    both("only-blanks", lambda h, b: " \t \n\t\n  ")
+    both("only-tab", lambda h, b: "\t")
+    both("crlf", lambda h, b: (h + b).replace("\n", "\r\n"))
+    both("cr", lambda h, b: (h + b).replace("\n", "\r"))
+    both("mixed-line-ends", lambda h, b: h + b.replace("\n", "\r\n", 2).replace("{\n", "{\r", 1))
+    both("crlf-leading", lambda h, b: "\r\n" + h + b)
+    both("cr-trailing", lambda h, b: h + b + "\r")
+    both("crlf-trailing-twice", lambda h, b: h + b + "\r\n\r\n")
+    both("lf-cr", lambda h, b: h + b.replace("\n", "\n\r", 1))
+    both("cr-only", lambda h, b: "\r")
+    both("form-feed-line", lambda h, b: h + "\f\n" + b.lstrip("\n"))
+    both("form-feed-leading", lambda h, b: "\f" + h + b)
+    both("form-feed-in-comment", lambda h, b: h + "\n/* a\fb */\n" + b.lstrip("\n"))
+    both("form-feed-trailing", lambda h, b: h + b + "\f")
+    both("vertical-tab", lambda h, b: h + "\n\v\n" + b.lstrip("\n"))
+    both("separators-1c-1e", lambda h, b: h + "\n/* a\x1cb\x1dc\x1ed */\n" + b.lstrip("\n"))
+    both("nel-ls-ps-in-comment", lambda h, b: h + "\n/* a\x85b\u2028c\u2029d */\n" + b.lstrip("\n"))
+    both("ls-in-code", lambda h, b: h + b + "\u2028")
+    both("controls-in-comment", lambda h, b: h + "\n/* \x01\x02\x07\x08\x1b\x7f */\n" + b.lstrip("\n"))
+    both("control-in-code", lambda h, b: h + b + "\x01\n")
+    both("escape-sequence-text", lambda h, b: h + "\n/* \x1b[31mred\x1b[0m */\n" + b.lstrip("\n"))
+    both("non-ascii-comment", lambda h, b: h + "\n/* caf\u00e9 \u4e2d\u6587 \u00df \u2603 */\n" + b.lstrip("\n"))
+    both("non-bmp-comment", lambda h, b: h + "\n// \U0001f600 e\u0301\n" + b.lstrip("\n"))
+    both("non-ascii-first-char", lambda h, b: "\u00e9" + h + b)
+    both("nbsp-leading", lambda h, b: "\u00a0" + h + b)
+    both("zero-width-space-leading", lambda h, b: "\u200b" + h + b)
+    both("non-ascii-code", lambda h, b: h + b + "\u00e9\n")
+    out.append(("rt.c", impl.HDR + BODY_BAD_C, "routes:plain-violating"))
+    return out
+
+
+ROUTE_SETS = [optset(mode="inline"), optset(mode="inline", fmt="json"), optset(mode="inline", colors=False, dstyle=1),
+              optset(mode="inline", fmt="json", o=True, colors=False, dstyle=1), optset(mode="inline", debug=1),
+              optset(mode="inline", fmt="humanized", R=["Foo"]), optset(fmt="json"), optset(colors=False),
+              optset(mode="inline-default"), optset(mode="inline-default", fmt="json")]
+
+
+def empty_content_probe(workdir):
+    """`--cfile ""` / `--hfile ""`: the content is falsy, main() ignores it and falls back to the path selection (model:
+    files_of_args = []).  In an empty directory: no File is built, nothing is printed, exit 0; an empty FILE gets `OK!`."""
+    import norminette.__main__ as M
+    d = os.path.join(workdir, "emptydir")
+    os.makedirs(d, exist_ok=True)
+    res = []
+    for flag, nm in (("--cfile=", "e.c"), ("--hfile=", "e.h")):
+        built = []
+        orig = M.File
+
+        def F(*a, **k):
+            built.append(a)
+            return orig(*a, **k)
+        M.File = F
+        try:
+            code, out, err, exc = impl.run_main([flag, "--filename=" + nm], cwd=d)
+        finally:
+            M.File = orig
+        res.append({"argv": [flag, "--filename=" + nm], "exit": code, "stdout": out, "exc": exc, "files_built": len(built)})
+    return res
 
 
 def run(run, tier, seed, replay=None):
@@ -516,6 +617,14 @@ def run(run, tier, seed, replay=None):
             per_file = []
             full = all_optsets(R_WORDS_QUICK)
             for k, (name, src, cls) in enumerate(files):
+                if cls.startswith("routes:"):
+                    sets = [dict(o) for o in ROUTE_SETS]
+                    if tier == "thorough":
+                        sets += sample_optsets(rnd, 30, R_WORDS_QUICK)
+                    for j, o in enumerate(sets):
+                        o["sub"] = (j in (1, 2)) and (k % (3 if tier == "quick" else 1) == 0)
+                    per_file.append(sets)
+                    continue
                 if tier == "thorough" or (deep and (cls == "defines" or (cls == "violating" and k % 8 == 0))):
                     sets = [dict(o) for o in full] + sample_optsets(rnd, 24, R_WORDS_QUICK + R_WORDS_MORE)
                 elif cls == "defines":
@@ -578,7 +687,8 @@ def run(run, tier, seed, replay=None):
                 found |= bool(run.violation(kind, data, finding_id=fid)) and not kind.startswith("correspondence-")
             for a, v in stats.items():
                 totals[a] = totals.get(a, 0) + v
-            run.count("%s files x option sets" % cls, len(results), stats["nontrivial"])
+            run.count("%s files x option sets" % ("inline-vs-file route contents (BOM, blanks, line ends, controls, non-ASCII)"
+                                                  if cls.startswith("routes:") else cls), len(results), stats["nontrivial"])
             hist[cls] = hist.get(cls, 0) + 1
             if k % 9 == 0 and results:
                 o, r, _ = results[min(len(results) - 1, 10)]
@@ -683,6 +793,11 @@ def run(run, tier, seed, replay=None):
                          "(fatal without -d, crash): %(excluded_no_verdict)d; runs of files that are fatal without -d but reach a "
                          "verdict with -d/-dd (outside the property, compared among themselves): %(fatal_debug0_verdict_debug)d; "
                          "-R CheckDefine runs: %(skip_runs)d; inline runs (CR / CRLF contents included, no exception for them): %(inline_runs)d; runs that timed out twice (inconclusive): %(timeouts)d" % totals)
+        if replay is None:
+            for pr in empty_content_probe(workdir):
+                run.count("correspondence: empty inline content is ignored (model: files_of_args = [])", 1, 1)
+                if pr["files_built"] or pr["stdout"] or pr["exit"] != 0 or pr["exc"]:
+                    run.violation("correspondence-empty-inline-content", pr)
         run.notes.append("observed, outside the quantifier: `--cfile \"\"` (empty content) is falsy and main() falls back to the "
                          "directory scan (Props/C16.v C16_example_inline); an empty FILE gets `OK!`")
         extra = {"problems_by_kind": per_kind, "input_distribution": hist, "option_sets_per_file": {"min": min(map(len, per_file)), "max": max(map(len, per_file))},
@@ -692,7 +807,11 @@ def run(run, tier, seed, replay=None):
     common.broken_obligations(run, b, found)
     disc = sum(1 for t in b.theorems if t not in b.open_assumptions) if b.make_ok else 0
     return run.finish(max(len(b.theorems), 23), disc,
-                      "files: conforming programs of family G, violating-but-analysable token edits of them, three files with the "
+                      "files: conforming programs of family G, violating-but-analysable token edits of them, 103 inline-vs-file route contents "
+                      "(.c and .h: U+FEFF first / twice / alone / inside / at the end, leading and trailing blank material, no final newline, "
+                      "whitespace only, CRLF / CR / mixed line ends, form feed, VT, 1C-1E, NEL/LS/PS, other control characters, ESC "
+                      "sequences, non-ASCII and non-BMP text; each inline in humanized and JSON, with and without --filename, two of "
+                      "them in a subprocess), three files with the "
                       "#define forms, files whose analysis meets unrecognised tokens / the two debug-guarded raises, CRLF / CR / non-ASCII "
                       "contents; option sets: quick = every option alone + random combinations (36 per file, 60 for the #define files), "
                       "thorough = the full product {colours} x {humanized,json} x {-o} x {none,-d,-dd} x 8 -R word lists x {path, inline} "
